@@ -34,6 +34,8 @@ def gen_metrics(rnd, n_einsums=None, force=None):
         return gen_reread_metrics(rnd)
     if force == "alias-arch":
         return gen_alias_arch(rnd)
+    if force == "occ-conv":
+        return gen_occ_conv_metrics(rnd)
     if force is None:
         if n_einsums in (None, 1) and rnd.random() < 0.12:
             return gen_merger(rnd)
@@ -823,4 +825,40 @@ def gen_alias_arch(rnd):
     spec = Spec(decl, exprs, loop_order=lo, spacetime=st,
                 extra="\n".join(arch + b + fmt) + "\n",
                 tags=["metrics", "m-aliased-level", "m-einsums%d" % n, "m-configs2"])
+    return spec
+
+
+def gen_occ_conv_metrics(rnd):
+    """Metrics-mode convolution whose output rank is split by OCCUPANCY of the projected input
+    (Q: uniform_occupancy(I.n), W: follow(Q)): the loop over Q1 needs its position to build the
+    interval of the level below, with or without metrics collection.  The split carries a halo,
+    which the reference model does not execute unless S == 1 - the text monitors still judge."""
+    a, b = 1, rnd.choice([1, 1, 2])
+    Q, S = rnd.randint(3, 8), rnd.choice([1, 1, 2, 3])
+    ext = {"Q": Q, "S": S, "W": a * (Q - 1) + b * (S - 1) + 1}
+    decl = {"I": ["W"], "F": ["S"], "O": ["Q"]}
+    facs = [Acc("I", [[(a, "q"), (b, "s")]]), _acc("F", ["S"])]
+    rnd.shuffle(facs)
+    e = Einsum(_acc("O", ["Q"]), [Term("times", facs)])
+    parts = {"Q": ["uniform_occupancy(I.%d)" % rnd.randint(1, 4)], "W": ["follow(Q)"]}
+    lo = ["Q1", "S", "Q0"]
+    npe = rnd.choice([1, 4])
+    arch = ["architecture:", "  accel:", "  - name: System", "    attributes:",
+            "      clock_frequency: 1000", "    local:", "    - name: Mem", "      class: DRAM",
+            "      attributes:", "        bandwidth: 512", "    subtree:",
+            "    - name: %s" % _level_name("PE", npe), "      local:",
+            "      - name: Mul0", "        class: compute", "        attributes:",
+            "          type: mul"]
+    bnd = ["bindings:", "  O:", "  - config: accel", "    prefix: tmp/O"]
+    if rnd.random() < 0.5:
+        bnd += ["  - component: Mem", "    bindings:", "    - tensor: F", "      rank: S",
+                "      type: payload", "      format: default"]
+    bnd += ["  - component: Mul0", "    bindings:", "    - op: mul"]
+    fmt = ["format:", "  F:", "    default:", "      rank-order: [S]", "      S:",
+           "        format: C", "        cbits: 32", "        pbits: 32"]
+    spec = Spec(decl, [e], partitioning={"O": parts}, loop_order={"O": lo},
+                spacetime={"O": {"space": [], "time": list(lo)}},
+                extra="\n".join(arch + bnd + fmt) + "\n",
+                tags=["metrics", "m-occupancy-split-projected-rank", "m-einsums1", "m-configs1"])
+    spec._extents = ext
     return spec
